@@ -37,15 +37,22 @@ def kind_code(tt):
     return 7
 
 
-def raw_lex(lang, text):
-    """the lexer oracle's answer, with the contract checked"""
-    out = list(lexer_for(lang).get_tokens_unprocessed(text))
+def raw_lex_padded(lang, text):
+    """the lexer oracle's answer on the text with a final line break ensured (what lex() hands to Pygments since
+    GD24), with the contract checked against the padded text"""
+    padded = text if text.endswith("\n") else text + "\n"
+    out = list(lexer_for(lang).get_tokens_unprocessed(padded))
     pos = 0
     for off, tt, val in out:
-        assert off == pos and text[off:off + len(val)] == val, ("lexer contract broken", lang, off, pos, val)
+        assert off == pos and padded[off:off + len(val)] == val, ("lexer contract broken", lang, off, pos, val)
         pos += len(val)
-    assert pos == len(text), ("lexer contract: text not covered", lang, pos, len(text))
+    assert pos == len(padded), ("lexer contract: text not covered", lang, pos, len(padded))
     return out
+
+
+def raw_lex(lang, text):
+    """the oracle's tokens of the text itself: the padding dropped again"""
+    return [(off, tt, val[:max(len(text) - off, 0)]) for off, tt, val in raw_lex_padded(lang, text)]
 
 
 def impl_lex(lang, text, keep_comments=True):
